@@ -1,4 +1,35 @@
 //! C02: bigBed write/read round trip through the real writer and reader.
+//! Case flag bit 2 (value 4, set by tools/vlib/props/C02.py on compressed cases): the bytes of the real,
+//! libdeflate-compressed file are appended to the output as a 4th element, for the "replay compressor"
+//! comparison (Model/Entry_C02.v entry 2: the blocks of the real file, inflated by Spec/Inflate.v, instantiate
+//! the compressor of Model/BigBedWriteZ.v, whose file must then equal the real one byte for byte).
+use bt_harness::bbi::{get_opts, get_sizes};
+use bt_harness::bed::{bed_autosql, bed_items, read_back, write_bigbed};
+use bt_harness::{a, sl, S};
+
+fn run(c: &S) -> S {
+    let flags = c.at(6).u32();
+    if flags & 4 == 0 {
+        return bt_harness::bed::run(c);
+    }
+    // as bed::run, keeping the bytes
+    let kind = c.at(0).u32();
+    let o = get_opts(c.at(1));
+    let sizes = get_sizes(c.at(2));
+    let threads = std::env::var("VERIF_THREADS").ok().and_then(|x| x.parse().ok()).unwrap_or(2usize);
+    let bytes = match write_bigbed(kind, &o, sizes, bed_autosql(c), bed_items(c.at(3)), threads) {
+        Ok(b) => b,
+        Err(code) => return sl![a(1), a(code)],
+    };
+    match read_back(c, &o, bytes.clone()) {
+        S::L(mut v) => {
+            v.push(S::from_bytes(&bytes));
+            S::L(v)
+        }
+        other => other,
+    }
+}
+
 fn main() {
-    bt_harness::run_cases(bt_harness::bed::run);
+    bt_harness::run_cases(run);
 }
